@@ -86,6 +86,12 @@ Proof.
       * (* VUtxos *) destruct vals; [| intros H; discriminate].
         destruct ((st_minp st <=? 1) && c_on c); intros H; inversion H; subst.
         right; right; left; simpl; auto.
+      * (* VTxs *) destruct l; [| intros H; discriminate].
+        destruct ((st_minp st <=? 1) && c_on c); intros H; inversion H; subst.
+        right; right; left; simpl; auto.
+      * (* VUtxoL *) destruct l; [| intros H; discriminate].
+        destruct ((st_minp st <=? 1) && c_on c); intros H; inversion H; subst.
+        right; right; left; simpl; auto.
     + intros H; inversion H; subst. right; right; right; auto.
 Qed.
 
@@ -192,6 +198,10 @@ Proof.
       + destruct b; simpl; intros H; inversion H; subst;
           left; eexists; split; try exact Hc; right; split; try (intros z0; discriminate); eexists; reflexivity.
       + destruct vals; simpl; intros H; try discriminate H; inversion H; subst.
+        left; eexists; split; [exact Hc |]. right; split; [intros z0; discriminate | eexists; reflexivity].
+      + destruct l; simpl; intros H; try discriminate H; inversion H; subst.
+        left; eexists; split; [exact Hc |]. right; split; [intros z0; discriminate | eexists; reflexivity].
+      + destruct l; simpl; intros H; try discriminate H; inversion H; subst.
         left; eexists; split; [exact Hc |]. right; split; [intros z0; discriminate | eexists; reflexivity].
     - destruct rf; simpl; [discriminate |]. intros H; inversion H; subst. right; auto. }
   destruct (cache_getaddr c addr) as [r0 |].
